@@ -93,13 +93,17 @@ def compare_case(x, y):
         out.append(("panic", {"source": src, "impl": x["R"]}))
     if y["R"] == "R unsupported":
         return out, "outside-subset"
-    if x["R"] != y["R"]:
+    if (x["R"] == "R ok") != (y["R"] == "R ok"):
         out.append(("structural-result", {"source": src, "impl": x["R"], "model": y["R"]}))
         return out, "compared"
+    if x["R"] != y["R"]:
+        # both reject, for a differently classified reason: the classes come from message texts, which may be
+        # reworded harmlessly; counted, not reported
+        return out, "compared-class-differs"
     if x["mach"] != y["mach"]:
         d = next(((p, q) for p, q in zip(x["mach"], y["mach"]) if p != q), (str(len(x["mach"])), str(len(y["mach"]))))
         out.append(("structural-machine", {"source": src, "impl": d[0], "model": d[1]}))
-        return out, "compared"
+        # keep going: the emitted machine is still simulated against the reference interpreter (failing-input search)
     if y["WF"] is not None and not y["WF"].startswith("WF 1"):
         out.append(("model-machine-not-wf", {"source": src, "model": y["WF"]}))
     for k, xs in x["sims"].items():
@@ -152,6 +156,8 @@ def analyse(impl, model):
             st["outside_subset"] += 1
         else:
             st["compared"] += 1
+            if how == "compared-class-differs":
+                st["class_differs"] = st.get("class_differs", 0) + 1
         for k, xs in y["sims"].items():
             n = len([l for l in xs if l.startswith("X ")])
             u = len([l for l in xs if l in ("X undefined", "X noentry")])
@@ -266,7 +272,8 @@ def run(rep):
                                "processors_per_machine": tot["ncp"], "register_sizes": tot["rsize"],
                                "opcodes_in_emitted_machines": tot["ops"], "rom_words": tot["rom_words"],
                                "entry_label_on_first_instruction": tot["entry_first"], "entry_label_elsewhere": tot["entry_not_first"],
-                               "outside_parser_subset": tot["outside_subset"]},
+                               "outside_parser_subset": tot["outside_subset"],
+                               "both_reject_with_different_error_class": tot.get("class_differs", 0)},
         "unmodelled": ["templates, fragments, macros, data sections, call resolver, clustering, romsize/ramsize/execmode metas, shared objects",
                        "non-decimal literals (C08)", "multi-processor composition semantics (bonds): only the structure is compared"],
     })
